@@ -49,6 +49,10 @@ def cases(tier, seed):
                     "ratio": [1, 0, 0], "source": "astrophysical", "bound": d})
         out.append({"kind": "event", "shape": shape, "shadow": False, "model": "CTW", "energy": 1e9,
                     "ratio": [0, 1, 2], "source": "astrophysical", "bound": d})
+        # the generator's own earth_model option (the three-shell model instead of the default PREM)
+        for shadow in (False, True):
+            out.append({"kind": "event", "shape": shape, "shadow": shadow, "model": "CTW", "energy": 1e6,
+                        "ratio": [1, 1, 1], "source": "cosmogenic", "bound": d, "earth": "cmc"})
     for loop in (True, False):
         out.append({"kind": "list", "loop": loop})
     return out
@@ -292,6 +296,7 @@ def _event_case(case):
         include_secondaries = False
     energies = [1e4, 1e7, 1e10]
     state = {"k": 0}
+    SHELLS, RADIUS = (pub.CMC_SHELLS, pub.CMC_RADIUS) if case.get("earth") == "cmc" else (pub.PREM_SHELLS, pub.PREM_RADIUS)
 
     def energy_fn():
         state["k"] += 1
@@ -305,7 +310,12 @@ def _event_case(case):
     def body(ch):
         state["k"] = 0
         e = energy_fn if case["energy"] == "callable" else case["energy"]
-        g, dims = _gen(shape, energy=e, shadow=shadow, flavor_ratio=tuple(case["ratio"]), source=case["source"], interaction_model=M)
+        kw_earth = {}
+        if case.get("earth") == "cmc":
+            from pyrex import earth_model
+            kw_earth = {"earth_model": earth_model.CoreMantleCrustModel()}
+        g, dims = _gen(shape, energy=e, shadow=shadow, flavor_ratio=tuple(case["ratio"]), source=case["source"], interaction_model=M,
+                       **kw_earth)
         s = rng.ScriptSource(chooser=ch, lattice=MENU)
         try:
             with rng.owned(s):
@@ -383,7 +393,7 @@ def _event_case(case):
         pid = p.id.value
         # weights
         L_tot = 1.0 / (pub.N_A * _sigma_tot(model, pid, E))           # g/cm^2
-        dist, X, jumps, rho_exit = ex.chord(vtx, -dirn, pub.PREM_SHELLS, pub.PREM_RADIUS)
+        dist, X, jumps, rho_exit = ex.chord(vtx, -dirn, SHELLS, RADIUS)
         tolX = ex.slant_tolerance(dist, 500.0, rho_exit, jumps, X, rho_max) if dist > 0 else 0.0
         w_surv = math.exp(-X / L_tot)
         iv = geom.cylinder_interval(vtx, dirn, dims[1], dims[2]) if dims[0] == "cyl" else geom.box_interval(vtx, dirn, dims[1], dims[2], dims[3])
@@ -426,7 +436,7 @@ def _event_case(case):
                 pid_t = [12, 14, 16][fl] * (1 if dd[6] < nb[fl] else -1)
                 E_t = case["energy"] if case["energy"] != "callable" else energies[(t + 1) % 3]
                 Lt = 1.0 / (pub.N_A * _sigma_tot(model, pid_t, E_t))
-                dist_t, X_t, j_t, re_t = ex.chord(vt, -dn, pub.PREM_SHELLS, pub.PREM_RADIUS)
+                dist_t, X_t, j_t, re_t = ex.chord(vt, -dn, SHELLS, RADIUS)
                 w_t = math.exp(-X_t / Lt)
                 b_t = (ex.slant_tolerance(dist_t, 500.0, re_t, j_t, X_t, rho_max) if dist_t > 0 else 0.0) / Lt * w_t + 1e-9
                 if dd[-1] < w_t - b_t:
